@@ -51,6 +51,10 @@ TECHNIQUE += '; count-field rule; token-separation rule on writer templates'
 TECHNIQUE += '; writer-fragment / reader-fragment evaluation on model streams (packed arrays, chunked sections, integral records, user-defined columns); abstract interpretation of reader results for dictionary keys'
 EXPLANATION += " Added: (R15) Molekel centres; (R16) chunked sections (Molekel blocks of five, FCHK five per line, PDB CONECT groups of four, WFX) write every value once, in order; (R17-R19) the orbital sections of Molekel / Molden / WFN (the evaluated clauses of C01-R14..R16); (R20) dictionary keys a writer looks up are keys its reader stores; (R21) FCHK gradient / Hessian / polarizability packing against the reader's unpacking; (R22) FCIDUMP: the symmetry-unique records written rebuild both integral arrays when read; (R23) FCHK quadrupole: the writer statement lists XX YY ZZ XY XZ YZ, the reader statement stores xx xy xz yy yz zz (both evaluated on six different numbers, no frozen permutation literal); (R24) the column-driven XYZ writer and reader interpreted with user-defined columns (scalar, vector, two columns under one dictionary attribute)."
 # --- end metadata batch 7
+# --- metadata added for batch 8
+TECHNIQUE += '; whole writer / reader pairs of the small record formats (XYZ columns, SDF, MOL2, PDB atom records, cube header, POSCAR) and the FCHK field routing, interpreted on model objects'
+EXPLANATION += ' Added: (R25) cube header writer / reader; (R26) POSCAR writer against the VASP header reader on a non-orthogonal cell; (R27, R28, R32) the FCHK basis block, WFN primitive lists and Molden [GTO] centres (C01-R17..R19); (R29) FCHK field routing: dump_one and load_one interpreted as a whole with the field I/O helpers replaced by a recorder -- which attribute goes to which label and back, with which factor, permutation and packing; (R30) pdb.dump_one against the record parser on atoms with occupancy / B-factor / residue number 0; (R31) SDF and MOL2 pairs on a molecule with bond types 1, 4, 9, 11. The frozen count of literal label pairs in R2 was dropped (a table-driven writer is not an anchor loss).'
+# --- end metadata batch 8
 
 
 def _lev(a, b):
